@@ -57,12 +57,78 @@ struct Run {
     widths: Vec<usize>,
     end: RunEnd,
     not_dirs: Vec<String>,
+    rerun_after_timeout: bool,
 }
 
-fn execute(cfg: &Cfg, paths: &[String], pre_removed: bool, source: &mut Source) -> Run {
+/// State the names have before the threads start.
+#[derive(Clone, Debug, Default)]
+pub struct Pre {
+    /// created and removed again (overlays then carry deletion markers for them)
+    removed: bool,
+    /// directories (prefixes of the requested paths, possibly a whole path) that already exist
+    dirs: Vec<String>,
+    /// ... in the lowest layer of the outermost overlay only (ignored when the configuration has no overlay)
+    in_lower: bool,
+}
+
+impl Pre {
+    fn gen(rng: &mut Rng, paths: &[String]) -> Pre {
+        let kind = rng.below(5);
+        let mut pre = Pre { removed: kind == 1, dirs: vec![], in_lower: kind >= 3 };
+        if kind >= 2 {
+            for p in paths {
+                let pf = prefixes(p);
+                let k = rng.below(pf.len() + 1);
+                if k > 0 && !pre.dirs.contains(&pf[k - 1]) {
+                    pre.dirs.push(pf[k - 1].clone());
+                }
+            }
+        }
+        pre
+    }
+    fn tag(&self) -> &'static str {
+        if self.removed {
+            "|after-earlier-removal"
+        } else if self.dirs.is_empty() {
+            ""
+        } else if self.in_lower {
+            "|prefix-in-lower-layer"
+        } else {
+            "|prefix-exists"
+        }
+    }
+    fn apply(&self, b: &crate::cfg::Built) {
+        let root = &b.root;
+        if self.removed {
+            return;
+        }
+        let lower = if self.in_lower { crate::prepop::outer_overlay(b).and_then(|(node, prefix)| b.layer_views(node).last().cloned().map(|(_, v, _)| (v, prefix))) } else { None };
+        for d in &self.dirs {
+            let _ = match &lower {
+                Some((view, prefix)) => at(view, &format!("{}{}", prefix, d)).create_dir_all(),
+                None => at(root, d).create_dir_all(),
+            };
+        }
+    }
+}
+
+/// see c16::execute: a suspected deadlock is replayed with a generous wall-clock limit before it is believed
+fn execute(cfg: &Cfg, paths: &[String], pre: &Pre, source: &mut Source) -> Run {
+    let r = execute_once(cfg, paths, pre, source, 1500);
+    if let RunEnd::Deadlock(_) = r.end {
+        let mut src = Source::Script { script: r.decisions.clone(), widths: vec![] };
+        let mut r2 = execute_once(cfg, paths, pre, &mut src, 20_000);
+        r2.rerun_after_timeout = true;
+        return r2;
+    }
+    r
+}
+
+fn execute_once(cfg: &Cfg, paths: &[String], pre: &Pre, source: &mut Source, stuck_ms: u64) -> Run {
     let b = build(cfg);
     let root = b.root.clone();
-    if pre_removed {
+    pre.apply(&b);
+    if pre.removed {
         // earlier (not concurrent) life of the same names: created and removed again before the threads start,
         // so that overlays carry deletion markers for them
         for p in paths {
@@ -91,7 +157,7 @@ fn execute(cfg: &Cfg, paths: &[String], pre_removed: bool, source: &mut Source) 
             baton.finish(i);
         }));
     }
-    let rr = baton.control(source, Duration::from_millis(1500));
+    let rr = baton.control(source, Duration::from_millis(stuck_ms));
     let mut not_dirs = vec![];
     if rr.end == RunEnd::Completed {
         pool.wait_all(paths.len());
@@ -105,7 +171,7 @@ fn execute(cfg: &Cfg, paths: &[String], pre_removed: bool, source: &mut Source) 
         }
     }
     let results = results.lock().unwrap().clone();
-    Run { results, trace: rr.trace, decisions: rr.decisions, widths: rr.widths, end: rr.end, not_dirs }
+    Run { results, trace: rr.trace, decisions: rr.decisions, widths: rr.widths, end: rr.end, not_dirs, rerun_after_timeout: false }
 }
 
 fn trace_text(trace: &[(usize, &'static str)]) -> String {
@@ -118,7 +184,7 @@ pub fn run_tuple(a: &Args, tag: &'static str, idx: u64, schedules: u64, sweep_ca
     let nthreads = *rng.pick(&[2usize, 2, 3, 4]);
     let depth = if nthreads == 2 { rng.range(1, 4) } else { rng.range(1, 3) };
     let paths = gen_paths(&mut rng, nthreads, depth);
-    let pre_removed = rng.chance(1, 2);
+    let pre = Pre::gen(&mut rng, &paths);
     let mut distinct: BTreeSet<u64> = BTreeSet::new();
     acc.count("tuples", 1);
     let mut judge = |acc: &mut Acc, r: &Run, strategy: &str, distinct: &mut BTreeSet<u64>| -> bool {
@@ -135,8 +201,11 @@ pub fn run_tuple(a: &Args, tag: &'static str, idx: u64, schedules: u64, sweep_ca
             acc.fingerprints.insert(h ^ idx.wrapping_mul(0x9E3779B97F4A7C15));
         }
         let detail = || {
-            J::obj().set("tag", J::s(tag)).set("seed", J::i(a.seed)).set("history", J::i(idx)).set("config", J::s(cfg.desc())).set("paths", J::arr(paths.iter().map(J::s))).set("names_created_and_removed_before", J::Bool(pre_removed)).set("strategy", J::s(strategy)).set("schedule", J::s(trace_text(&r.trace))).set("decisions", J::s(format!("{:?}", r.decisions))).set("results", J::s(format!("{:?}", r.results)))
+            J::obj().set("tag", J::s(tag)).set("seed", J::i(a.seed)).set("history", J::i(idx)).set("config", J::s(cfg.desc())).set("paths", J::arr(paths.iter().map(J::s))).set("state_before", J::s(format!("{:?}", pre))).set("strategy", J::s(strategy)).set("schedule", J::s(trace_text(&r.trace))).set("decisions", J::s(format!("{:?}", r.decisions))).set("results", J::s(format!("{:?}", r.results)))
         };
+        if r.rerun_after_timeout {
+            acc.count("suspected_deadlocks_replayed_with_long_limit", 1);
+        }
         if let RunEnd::Deadlock(stuck) = &r.end {
             acc.violate(Violation { property: "C17", signature: format!("deadlock|{}", cfg.shape()), summary: format!("threads {:?} never came back from create_dir_all", stuck), detail: detail(), order: idx });
             return false;
@@ -144,7 +213,7 @@ pub fn run_tuple(a: &Args, tag: &'static str, idx: u64, schedules: u64, sweep_ca
         for (i, res) in r.results.iter().enumerate() {
             if let Some(Err(e)) = res {
                 let kind = e.split(':').next().unwrap_or("").to_string();
-                acc.violate(Violation { property: "C17", signature: format!("call-failed|{}|{}{}", kind.chars().filter(|c| !c.is_ascii_digit()).take(40).collect::<String>(), cfg.shape(), if pre_removed { "|after-earlier-removal" } else { "" }), summary: format!("concurrent create_dir_all({}) of thread {} failed: {} (paths {:?}, schedule {})", paths[i], i, e, paths, trace_text(&r.trace)), detail: detail(), order: idx });
+                acc.violate(Violation { property: "C17", signature: format!("call-failed|{}|{}{}", kind.chars().filter(|c| !c.is_ascii_digit()).take(40).collect::<String>(), cfg.shape(), pre.tag()), summary: format!("concurrent create_dir_all({}) of thread {} failed: {} (paths {:?}, schedule {})", paths[i], i, e, paths, trace_text(&r.trace)), detail: detail(), order: idx });
                 if e.starts_with("PANIC") {
                     acc.violate(Violation { property: "C13", signature: format!("panic|concurrent-create_dir_all|{}", cfg.shape()), summary: e.clone(), detail: detail(), order: idx });
                 }
@@ -161,7 +230,7 @@ pub fn run_tuple(a: &Args, tag: &'static str, idx: u64, schedules: u64, sweep_ca
     let mut complete = false;
     loop {
         let mut src = Source::Script { script: stack.iter().map(|x| x.0).collect(), widths: vec![] };
-        let r = execute(&cfg, &paths, pre_removed, &mut src);
+        let r = execute(&cfg, &paths, &pre, &mut src);
         runs += 1;
         if !judge(acc, &r, "sweep", &mut distinct) {
             break;
@@ -191,7 +260,7 @@ pub fn run_tuple(a: &Args, tag: &'static str, idx: u64, schedules: u64, sweep_ca
         for s in 0..schedules {
             let mut srng = Rng::derive(a.seed ^ idx, "c17-sched", s);
             let mut src = if s % 3 == 2 { pct_source(&mut srng, paths.len(), 2, 30) } else { Source::Random(srng) };
-            let r = execute(&cfg, &paths, pre_removed, &mut src);
+            let r = execute(&cfg, &paths, &pre, &mut src);
             if !judge(acc, &r, if s % 3 == 2 { "pct" } else { "random" }, &mut distinct) {
                 break;
             }
@@ -215,6 +284,9 @@ pub fn physical_round(a: &Args, idx: u64, acc: &mut Acc) {
     let b = build(&cfg);
     let nthreads = rng.range(2, 4);
     let paths = gen_paths(&mut rng, nthreads, 4);
+    let mut pre = Pre::gen(&mut rng, &paths);
+    pre.removed = false;
+    pre.apply(&b);
     let barrier = Arc::new(Barrier::new(nthreads));
     let hits = Arc::new(std::sync::atomic::AtomicU64::new(0));
     let results: Vec<Result<(), String>> = std::thread::scope(|s| {
@@ -259,10 +331,10 @@ pub fn physical_round(a: &Args, idx: u64, acc: &mut Acc) {
     acc.count("physical_rounds", 1);
     acc.count("physical_create_dir_hook_hits", hits.load(std::sync::atomic::Ordering::Relaxed));
     acc.fingerprints.insert(Rng::derive(idx, &paths.join(","), cfg.shape().len() as u64).0);
-    let detail = || J::obj().set("tag", J::s("c17-phys")).set("seed", J::i(a.seed)).set("history", J::i(idx)).set("config", J::s(cfg.desc())).set("paths", J::arr(paths.iter().map(J::s))).set("results", J::s(format!("{:?}", results)));
+    let detail = || J::obj().set("tag", J::s("c17-phys")).set("seed", J::i(a.seed)).set("history", J::i(idx)).set("config", J::s(cfg.desc())).set("paths", J::arr(paths.iter().map(J::s))).set("state_before", J::s(format!("{:?}", pre))).set("results", J::s(format!("{:?}", results)));
     for (i, r) in results.iter().enumerate() {
         if let Err(e) = r {
-            acc.violate(Violation { property: "C17", signature: format!("call-failed|{}|{}", e.split(':').next().unwrap_or("").chars().filter(|c| !c.is_ascii_digit()).take(40).collect::<String>(), cfg.shape()), summary: format!("concurrent create_dir_all({}) failed on a physical configuration: {} (paths {:?})", paths[i], e, paths), detail: detail(), order: idx });
+            acc.violate(Violation { property: "C17", signature: format!("call-failed|{}|{}{}", e.split(':').next().unwrap_or("").chars().filter(|c| !c.is_ascii_digit()).take(40).collect::<String>(), cfg.shape(), pre.tag()), summary: format!("concurrent create_dir_all({}) failed on a physical configuration: {} (paths {:?})", paths[i], e, paths), detail: detail(), order: idx });
         }
     }
     for p in &paths {
